@@ -128,7 +128,9 @@ class C17:
             cenv, cq_list([str(p) for p in c["ports"]]), mounts)
         cmds = cq_list([f"({cq_bytes(e['prog'].encode())}, {cq_list([cq_bytes(bytes(a)) for a in e['argv']])})" for e in o["log"]])
         packs = [e for e in o["log"] if e["prog"] == "pack" and e["argv"][:1] == [list(b"build")]]
-        want = sorted(FIXTURE_LISTING + ([["PREPROCESSED", [120]]] if c["pre"] else []))
+        want = sorted(FIXTURE_LISTING + [])
+        if c["pre"]:      # what the preprocessor leaves in the private copy: a new file, app.txt rewritten, sub/inner.txt extended
+            want = sorted([["PREPROCESSED", [120]], ["app.txt", list(b"changed")], ["sub/", []], ["sub/inner.txt", list(b"inner+more")]])
         copy_ok = len(packs) == 1 and packs[0].get("path_listing") == want
         untouched = len(o["fixtures"]) == 1 and o["fixtures"][0]["listing"] == FIXTURE_LISTING and o["status"] == "done" and not leftover
         return "(mkCase %s %s %s %s %s %s %s %s %s %s %s)" % (
